@@ -31,6 +31,25 @@ CHECKS = {
         technique="Lean 4 proof (parser model computes the denotation, induction over syntax trees) + generated lexer + correspondence",
         design="§4 C04",
     ),
+    "C09": dict(
+        text="Lean theorems about a model of the executor (group -> order -> select): the rendered tree contains every matching note exactly once "
+        "(permutation), every note sits under labels equal to its key per GROUP BY dimension, sibling labels strictly increasing, leaves sorted by the "
+        "ORDER BY key, selections = distinct values (sorted under alpha), count = length; plus the kernel-checked counterexample for `O none`. "
+        "The model's rendering is compared character by character with swog.execute on real indexes (all select forms, 0-4 grouping dimensions, "
+        "order lists 0-4) and the output is compared with an independent rendering of the statement.",
+        note=NOTE_STD + "The WHERE result and Note.to_string are taken from the implementation (C03 / C12). `O none` string comparison is a recorded known finding.",
+        technique="Lean 4 proof (permutation / sortedness invariants of group-order-select) + output correspondence",
+        design="§4 C09",
+    ),
+    "C15": dict(
+        text="Lean theorems about a model of _saved_queries.py: a missing reference (also nested) makes the expansion fail, queries without references are "
+        "unchanged, recursion depth dep+1 suffices for acyclic sets (termination), substituted filters with alternatives are parenthesised, a "
+        "parenthesised sub-filter is a conjunct (C15_meaning_sub), and the kernel-checked counterexample for un-parenthesised splices (kind pooling). "
+        "Tied to the code by textual correspondence on generated acyclic saved-query sets and by executing referencing queries vs explicit conjunctions.",
+        note=NOTE_STD + "Meaning is proved for parenthesised substitutions only; the un-parenthesised splice is a recorded known finding.",
+        technique="Lean 4 proof (expansion model: termination, missing refs, grouping) + textual and execution correspondence",
+        design="§4 C15",
+    ),
     "C14": dict(
         text="Lean theorem: Python's two str.replace passes ('[[A]'->'[[B]', then '[[A#'->'[[B#') equal the one-pass specification "
         "(every link to A retargeted, every other character copied) for every text and all link-safe names, plus near-miss and "
